@@ -36,13 +36,74 @@ pub fn edges_large(n: usize) -> usize {
     n * 3
 }
 
+/// marker in `GraphCase::shape` for a size-sweep case
+pub const SWEEP: u8 = 255;
+
+/// Every node count n in `big_n..=big_seed`: the graph made of disjoint three-node paths
+/// a - b - c (directed: a -> b -> c) plus n mod 3 isolated nodes. Whatever n is, the raw betweenness
+/// of every middle node is the same non-zero constant (it is taken from the 9-node instance, which
+/// is checked against the brute-force oracle) and that of every other node is 0. Size-dependent
+/// partitioning of the sources (blocks, batches, chunks per thread) cannot hide behind sampled
+/// sizes this way.
+fn sweep(case: &GraphCase) -> Outcome {
+    use crate::model::{mk_edge, mk_node, SpecBits, G};
+    let mut out = Outcome::new();
+    let directed = case.kind & 1 == 1;
+    let build = |n: usize| -> (G, Vec<String>) {
+        let names: Vec<String> = (0..n).map(|i| format!("s{:05}", (i * 7919 + 13) % 100_003)).collect();
+        let mut g = G::new(SpecBits::kind(directed, false, false).to_specs());
+        g.add_nodes(names.iter().map(|x| mk_node(x, None)).collect());
+        let mut i = 0;
+        while i + 2 < n {
+            g.add_edge(mk_edge(&names[i], &names[i + 1], f64::NAN)).expect("edge");
+            g.add_edge(mk_edge(&names[i + 1], &names[i + 2], f64::NAN)).expect("edge");
+            i += 3;
+        }
+        (g, names)
+    };
+    // the constant, from the 9-node instance and the brute-force oracle
+    let ng9 = NormGraph { directed, multi: false, loops: false, n: 9, names: (0..9).map(|i| i.to_string()).collect(), order: (0..9).collect(), edges: vec![(0, 1, f64::NAN), (1, 2, f64::NAN), (3, 4, f64::NAN), (4, 5, f64::NAN), (6, 7, f64::NAN), (7, 8, f64::NAN)], weighted: false };
+    let mut want9 = betweenness_brute(&weight_matrix(&ng9, false));
+    rescale_betweenness(&mut want9, 9, false, directed);
+    let middle = want9[1];
+    assert!(middle > 0.0 && want9[0] == 0.0 && want9[4] == middle, "harness bug: closed form of the sweep family");
+    for n in case.big_n as usize..=case.big_seed as usize {
+        let (g, names) = build(n);
+        out.api_calls += 1;
+        match guard(|| betweenness_centrality(&g, false, false)) {
+            Err(p) => out.fail(format!("betweenness_centrality[hops,norm=false]/panic/{}", panic_class(&p)), format!("n = {}: {}", n, p)),
+            Ok(Err(e)) => out.fail(format!("betweenness_centrality[hops,norm=false]/error/{}", kind_of(&e)), format!("n = {}", n)),
+            Ok(Ok(m)) => {
+                if m.len() != n {
+                    out.fail("betweenness_centrality[hops,norm=false]/keys/size_sweep", format!("n = {}: {} entries", n, m.len()));
+                }
+                let paths = n / 3;
+                for (i, x) in names.iter().enumerate() {
+                    let want = if i % 3 == 1 && i / 3 < paths { middle } else { 0.0 };
+                    let got = m.get(x).copied().unwrap_or(f64::NAN);
+                    if !approx(got, want, 1e-9, 1e-12) {
+                        out.fail("betweenness_centrality[hops,norm=false]/ne_definition/size_sweep", format!("n = {} (disjoint 3-node paths): node at position {} has {} instead of {}", n, i, got, want));
+                        break;
+                    }
+                }
+            }
+        }
+        if !out.failures.is_empty() {
+            break;
+        }
+    }
+    out.class("size_sweep_every_node_count_in_a_range");
+    out.nontrivial = true;
+    out
+}
+
 impl Prop for C05 {
     type Case = GraphCase;
     fn id(&self) -> &'static str {
         "C05"
     }
     fn rule(&self) -> String {
-        "graphs of all 8 kinds, n in 0..=8 (oracle: explicit enumeration of all shortest paths per ordered pair and counting those with v strictly inside) n in 9..=30 and boundary sizes up to 255 (oracle: sigma products on the Floyd-Warshall matrix), and one case in 4300 with a procedurally generated sparse graph of 300..3000 nodes (oracle: an independent Brandes implementation, itself compared with the brute-force oracle on every small case), shapes and shuffled insertion order as C04; weight modes unweighted / positive dyadic / tie-rich; every graph is evaluated in all of weighted x normalized that apply; tolerance 1e-9 relative. Exhaustive block: all graphs on <= 3 nodes of the single-edge kinds. Non-trivial = some node has non-zero betweenness and some pair has >= 2 shortest paths; distinct = distinct serialised case. Name-type independence: for every graph of <= 12 nodes and one in eight up to 64 (34 for path-returning calls) the same calls are repeated with a user-defined node-name type (lossy Display, heavily colliding Hash, Ord unrelated to insertion order) and must give the same order-independent results as with String names (floats within 1e-9). Each call runs in the ambient 16-thread pool or, selected by the case, inside a shared rayon pool of 1, 3, 24 or 64 threads (more threads than nodes for the 21..=60-node class).".into()
+        "graphs of all 8 kinds, n in 0..=8 (oracle: explicit enumeration of all shortest paths per ordered pair and counting those with v strictly inside) n in 9..=30 and boundary sizes up to 255 (oracle: sigma products on the Floyd-Warshall matrix), and one case in 4300 with a procedurally generated sparse graph of 300..3000 nodes (oracle: an independent Brandes implementation, itself compared with the brute-force oracle on every small case), shapes and shuffled insertion order as C04; weight modes unweighted / positive dyadic / tie-rich; every graph is evaluated in all of weighted x normalized that apply; tolerance 1e-9 relative. Exhaustive block: all graphs on <= 3 nodes of the single-edge kinds. Non-trivial = some node has non-zero betweenness and some pair has >= 2 shortest paths; distinct = distinct serialised case. Name-type independence: for every graph of <= 12 nodes and one in eight up to 64 (34 for path-returning calls) the same calls are repeated with a user-defined node-name type (lossy Display, heavily colliding Hash, Ord unrelated to insertion order) and must give the same order-independent results as with String names (floats within 1e-9). Each call runs in the ambient 16-thread pool or, selected by the case, inside a shared rayon pool of 1, 3, 24 or 64 threads (more threads than nodes for the 21..=60-node class). Size sweep (exhaustive block): every node count n in 21..=1200 (thorough: ..=9000) on the family of disjoint 3-node paths, where the raw betweenness of every middle node is a constant taken from the brute-force oracle at n = 9.".into()
     }
     fn assumptions(&self) -> Vec<String> {
         vec!["positive weights; paths are node sequences (parallel edges do not multiply path counts)".into(), "float comparison with relative tolerance 1e-9 (the quotient sigma_sv*sigma_vt/sigma_st is not exact)".into()]
@@ -58,6 +119,18 @@ impl Prop for C05 {
                     v.extend(enumerate_small(kind, n, wmode));
                 }
             }
+        }
+        // size sweep: every node count of a contiguous range (quick: 21..=1200, thorough: up to
+        // 9000) on a family with a closed form, in chunks; `big_n..=big_seed` is the range
+        let hi = _tier.pick(1200u32, 9000);
+        let mut lo = 21u32;
+        while lo <= hi {
+            let step = if lo < 1200 { 100 } else { 40 };
+            let end = (lo + step - 1).min(hi);
+            for kind in [0u8, 1] {
+                v.push(GraphCase { kind, n: 0, perm: 0, shape: SWEEP, edges: vec![], wmode: 0, big_n: lo, big_seed: end as u64 });
+            }
+            lo = end + 1;
         }
         v
     }
@@ -78,6 +151,9 @@ impl Prop for C05 {
         tier.pick(150_000, 1_500_000)
     }
     fn check(&self, case: &GraphCase) -> Outcome {
+        if case.shape == SWEEP {
+            return sweep(case);
+        }
         let mut out = Outcome::new();
         let ng = case.norm();
         let graph = ng.build();
